@@ -13,7 +13,7 @@
    on faces and vertices, starts inside / on faces / outside, steps that meet several faces at once) and not proved.
    Conjugate gradient and L-BFGS are not in Minim.v. *)
 From Coq Require Import ZArith List Bool Reals.
-From Adept Require Import Scalar Minim MinimProofs ExprReal MinimNewton.
+From Adept Require Import Scalar Minim MinimProofs RealOps MinimNewton.
 Import ListNotations.
 Local Open Scope Z_scope.
 
